@@ -80,7 +80,8 @@ def r1(R):
                              'now owns')
         return st
 
-    vs, stats = explore(g, ('none', None), at=at, edge=edge)
+    vs, stats = explore(g, ('none', None), at=at, edge=edge,
+                        base_exceptions=True)
     R.count(stats)
     for v in vs:
         n = raising_node(g, v.path) if v.node.id == g.exit_raise else v.node
@@ -115,7 +116,22 @@ def r1(R):
         if node.kind == 'for' and lab == 'T' and is_writer(
                 node.ast.iter, node.frame) and not drain_loop_of(node):
             started = True
-            unfindable = None
+            unfindable = 'taken'       # popped from the queue, not recorded
+        if unfindable == 'taken':
+            if lab == 'e' and node.kind not in ('raise', 'reraise'):
+                # only calls count: the tests and attribute reads between
+                # taking the object and recording it cannot fail
+                if not any(op.kind == 'call' and not F2.b.call_is_nonraising(
+                        op.ast, node.frame) and not (
+                            op.path and op.path[-1] == 'pop' and
+                            len(op.ast.args) == 2)
+                        for op in F2.ops(node)):
+                    return PRUNE
+            elif lab != 'e':
+                for op in F2.ops(node):
+                    if op.kind == 'call' and path_is(
+                            op.path, ('self', '_modified', 'append')):
+                        unfindable = None
         for op in F2.ops(node):
             if op.kind == 'setitem' and lab != 'e' and path_is(
                     op.path, ('self', '_creating')):
@@ -136,6 +152,13 @@ def r1(R):
     def at2(node, st):
         started, drained, unfindable = st
         if node.id == g2.exit_raise and started:
+            if unfindable == 'taken':
+                return Violation(
+                    'an object has been taken from the writer\'s queue but a '
+                    'step that can fail (pickling it) comes before it is '
+                    'recorded as creating/modified: if that step fails, '
+                    'neither the queue nor _creating nor the cache knows the '
+                    'object, and it stays owned by the connection')
             if unfindable is not None:
                 return Violation(
                     'a new object is recorded in _creating but not yet in the '
@@ -152,15 +175,17 @@ def r1(R):
                     'a reference to an object that is never stored')
         return st
 
-    vs2, stats2 = explore(g2, (False, False, None), at=at2, edge=edge2)
+    vs2, stats2 = explore(g2, (False, False, None), at=at2, edge=edge2,
+                          base_exceptions=True)
     R.count(stats2)
     seen_msgs = set()
     for v in vs2:
         if v.message in seen_msgs:
             continue
         seen_msgs.add(v.message)
-        key = 'creating object not findable' if 'cache' in v.message \
-            else 'writer queue not drained'
+        key = 'object taken but not recorded' if 'taken from' in v.message \
+            else ('creating object not findable' if 'cache' in v.message
+                  else 'writer queue not drained')
         R.violation((f2.module.relpath, f2.qualname, key), v.message, g2,
                     v.path)
     R.named_exception('Connection.exchange', 'deprecated ZClasses hook '
@@ -449,5 +474,54 @@ def r6(R):
     R.instance('queue', field='_stack')
     R.require(sites[0] >= 2 or vs, 'only %d oid-granting sites found' %
               sites[0])
+    for v in vs:
+        R.violation(v.node, v.message, g, v.path)
+
+
+@rule('C11.R7', 'the connection records itself as joined only after the '
+      'transaction accepted it', min_instances=1)
+def r7(R):
+    conn = R.prog.cls(CONN)
+    f = R.method(conn, '_register')
+    g, b, F = R.cfg(f, conn, max_depth=0)
+    R.instance('Connection._register')
+    seen = [0]
+
+    def joined_store(node):
+        for op in F.ops(node):
+            if op.kind == 'store' and path_is(op.path,
+                                              ('self', '_needs_to_join')):
+                v = store_value(op)
+                if isinstance(v, ast.Constant) and v.value is False:
+                    return True
+        return False
+
+    def join_call(node):
+        return any(op.kind == 'call' and isinstance(
+            op.ast.func, ast.Attribute) and op.ast.func.attr == 'join'
+            for op in F.ops(node))
+
+    def edge(node, st, lab, tgt):
+        if join_call(node):
+            seen[0] += 1
+            if lab == 'e':
+                if st == 'flag-cleared':
+                    return Violation(
+                        'the connection marks itself as joined before '
+                        'joining: if the transaction refuses the join (it '
+                        'has already failed, or none was begun) the flag '
+                        'stays cleared -- later commits report success but '
+                        'store nothing, and close() refuses for ever')
+                return st
+            return 'joined'
+        if lab != 'e' and joined_store(node):
+            if st != 'joined':
+                return 'flag-cleared'
+            return 'done'
+        return st
+
+    vs, stats = explore(g, 'start', edge=edge)
+    R.count(stats)
+    R.require(seen[0] or vs, '_register no longer joins the transaction')
     for v in vs:
         R.violation(v.node, v.message, g, v.path)
